@@ -22,7 +22,14 @@ def caux_mains(fr_ast):
 def check_actives(plan, impl, out):
     """C05: after every run, actives == outline(active) or that chain cut at a frame with a conditional aux."""
     asts = framer_asts(plan)
+    # which auxiliaries are running (have a frame entered and not exited) — known only for auxiliaries all of whose frames record both ends
+    recorded = dict((fr["name"], all(_has_rec(fr, f["name"], "enter") and _has_rec(fr, f["name"], "exit") for f in fr["frames"])) for fr in asts.values())
+    open_frames = {}
     for e in impl:
+        if e[1] == "rec" and e[5] in ("enter", "exit"):
+            s = open_frames.setdefault(e[3], set())
+            (s.add if e[5] == "enter" else s.discard)(e[4])
+            continue
         if e[1] != "sent" or e[5] is None:
             continue
         name, status, (active, actives, elapsed, recurred, done) = e[2], e[4], e[5]
@@ -35,8 +42,14 @@ def check_actives(plan, impl, out):
             if actives == full:
                 continue
             if actives and actives == full[:len(actives)] and actives[-1] in caux_mains(asts[name]) and full.index(actives[-1]) >= full.index(active) - len(full):
-                out.probe("cut-at-conditional-aux")
-                continue
+                cauxes = [a["name"] for f in asts[name]["frames"] if f["name"] == actives[-1] for a in f["acts"] if a["k"] == "aux" and a.get("needs")]
+                if any(not recorded.get(x, False) or open_frames.get(x) for x in cauxes):
+                    out.probe("cut-at-conditional-aux")
+                    continue
+                out.violate("actives", "active frames cut at a frame none of whose conditional auxiliaries is running",
+                            "tick %d framer %s active %s: actives %r, outline %r, conditional auxiliaries of %s: %r (none has an entered frame)"
+                            % (e[0], name, active, actives, full, actives[-1], cauxes))
+                return
             out.violate("actives", "active frames are not the active frame's outline", "tick %d framer %s active %s: actives %r, outline %r" % (e[0], name, active, actives, full))
             return
         elif status in (STOPPED, ABORTED) and (actives or active is not None):
